@@ -67,6 +67,11 @@ def pieceColumnAt (tenv : Option Env) (env : Env) (table : List (String × Expr)
   | some (_, e) =>
     let r : M Val := match e with
       | .call .. | .brace .. =>
+        -- a call of a caller-supplied function (not C / T / S / a built-in transform, which the
+        -- model evaluates itself): the harness hands the function's result on the rows of `env`
+        -- as an extra frame column named like the atom; the levels `fn(v)[l]` enumerates are the
+        -- values of that result
+        if (env.frame.col? name).isSome then lookupName env name else
         match tenv with
         | Option.none => do
           let (v, _) ← posOnly (evalArg env e Option.none)
@@ -156,7 +161,7 @@ def check (env : Env) (table : List (String × Expr)) (labels : List String) (m 
   checkAt Option.none env table labels m
 
 /-- the data column whose levels a single-piece label `name[level]` enumerates: the variable
-itself, or the first argument `v` of a coding call `C(v …)`, `T(v …)`, `S(v …)` that does not pass
+itself (or the result column of a caller-supplied call, see `levelOrderOk`), or the first argument `v` of a coding call `C(v …)`, `T(v …)`, `S(v …)` that does not pass
 an explicit `levels=` (which fixes another order) -/
 def levelSource (name : String) : Option String :=
   let cs := name.toList
@@ -200,7 +205,9 @@ def levelOrderOk (env : Env) (labels : List String) : Bool :=
     match p with
     | (some (n1, l1), some (n2, l2)) =>
       if n1 != n2 then true else
-      match levelSource n1 with
+      -- the levels of a caller-supplied call `fn(v)` are those of its result, which the harness
+      -- supplies as a frame column named like the atom
+      match (if (env.frame.col? n1).isSome then some n1 else levelSource n1) with
       | none => true
       | some v =>
         match env.frame.col? v with
